@@ -110,14 +110,27 @@ func ruleDur1(c *Ctx, r *Reporter) {
 			})
 		})
 	}
+	// the rename may have moved into that helper too ("publish": rename, then fsync the directory)
+	var helperRename *ssa.Call
+	if dirHelper != nil && rename == nil {
+		allInstrs(dirHelper, func(x ssa.Instruction) {
+			if hc, ok := x.(*ssa.Call); ok && calleeFull(&hc.Call) == "os.Rename" {
+				helperRename = hc
+			}
+		})
+	}
 	if dirHelper != nil {
-		ok := ruleDur1DirHelper(c, r, fn, dirHelper, dirHelperCall, opendir, rename, pathParam)
+		var tempPathEarly ssa.Value
+		if open != nil {
+			tempPathEarly = resolveCell(open.Call.Args[0])
+		}
+		ok := ruleDur1DirHelper(c, r, fn, dirHelper, dirHelperCall, opendir, rename, helperRename, tempPathEarly, pathParam)
 		if !ok {
 			return
 		}
 		opendir = nil
 	}
-	if open == nil || cp == nil || rename == nil || (opendir == nil && dirHelper == nil) {
+	if open == nil || cp == nil || (rename == nil && helperRename == nil) || (opendir == nil && dirHelper == nil) {
 		r.bad(key+"protocol", c.pos(fn.Pos()), fmt.Sprintf("a step of the protocol is missing (OpenFile:%v io.Copy:%v Rename:%v Open(dir):%v)", open != nil, cp != nil, rename != nil, opendir != nil))
 		return
 	}
@@ -156,8 +169,10 @@ func ruleDur1(c *Ctx, r *Reporter) {
 	// copy target and source
 	r.check(stripValue(resolveCell(cp.Call.Args[0])) == tempFile || stripValue(cp.Call.Args[0]) == tempFile || resolveCell(stripValue(cp.Call.Args[0])) == tempFile, key+"copy target", c.pos(cp.Pos()), "io.Copy writes into the temp file", "io.Copy does not write into the temp file")
 	r.check(cp.Call.Args[1] == fn.Params[1], key+"copy source", c.pos(cp.Pos()), "io.Copy reads the caller's reader", "io.Copy does not read the caller's data")
-	// rename args
-	r.check(resolveCell(rename.Call.Args[0]) == tempPath && rename.Call.Args[1] == pathParam, key+"rename args", c.pos(rename.Pos()), "Rename(temp, path)", "rename does not move the temp file onto path")
+	// rename args (examined inside the helper when the rename lives there)
+	if rename != nil {
+		r.check(resolveCell(rename.Call.Args[0]) == tempPath && rename.Call.Args[1] == pathParam, key+"rename args", c.pos(rename.Pos()), "Rename(temp, path)", "rename does not move the temp file onto path")
+	}
 	// directory
 	if dirHelper == nil {
 		dirOK := false
@@ -170,6 +185,18 @@ func ruleDur1(c *Ctx, r *Reporter) {
 	steps := []step{{"remove stale temp", rmStale}, {"open temp", open}, {"copy", cp}, {"sync temp", fsync}, {"close temp", fclose}, {"rename", rename}, {"open dir", opendir}, {"sync dir", dirsync}}
 	if dirHelper != nil {
 		steps = steps[:6] // the two directory steps were examined inside the helper
+	}
+	if helperRename != nil {
+		steps = steps[:5] // the rename too; the helper must run only after the temp file was closed successfully
+		dom := false
+		if fclose != nil {
+			for _, chk := range errChecksOf(errorResult(fclose)) {
+				if chk.OkSucc == dirHelperCall.Block() || chk.OkSucc.Dominates(dirHelperCall.Block()) {
+					dom = true
+				}
+			}
+		}
+		r.check(dom, key+"order close temp < rename", c.pos(dirHelperCall.Pos()), "runs only after 'close temp' succeeded", "'rename' can run although 'close temp' has not (successfully) happened before it")
 	}
 	for i, s := range steps {
 		if s.call == nil {
@@ -254,7 +281,7 @@ func ruleDur1(c *Ctx, r *Reporter) {
 
 // ruleDur1DirHelper examines a helper H(path) error of package dbkit that opens and fsyncs the parent directory,
 // and how AtomicWriteFile calls it. Returns false when the shape is not understood (reported as violation).
-func ruleDur1DirHelper(c *Ctx, r *Reporter, fn, h *ssa.Function, hcall, opendir, rename *ssa.Call, pathParam *ssa.Parameter) bool {
+func ruleDur1DirHelper(c *Ctx, r *Reporter, fn, h *ssa.Function, hcall, opendir, rename, helperRename *ssa.Call, tempPath ssa.Value, pathParam *ssa.Parameter) bool {
 	key := "AtomicWriteFile:"
 	// the helper receives the path
 	var hp *ssa.Parameter
@@ -311,11 +338,32 @@ func ruleDur1DirHelper(c *Ctx, r *Reporter, fn, h *ssa.Function, hcall, opendir,
 		}
 	}
 	r.check(okSync, key+"step sync dir:error", c.pos(dirsync.Pos()), "the helper reports success only after the directory fsync succeeded (or returns its error directly)", "the helper can report success without a successful directory fsync")
-	// in AtomicWriteFile: after the rename succeeded, result consumed
+	// after the rename succeeded (in AtomicWriteFile, or in the helper itself), result consumed
 	dom := false
-	for _, chk := range errChecksOf(errorResult(rename)) {
-		if chk.OkSucc == hcall.Block() || chk.OkSucc.Dominates(hcall.Block()) {
-			dom = true
+	if helperRename != nil {
+		// Rename(<the caller's temp path>, <the path>) with its failure returned, before the directory is opened
+		argsOK := helperRename.Call.Args[1] == ssa.Value(hp)
+		if p0, ok := helperRename.Call.Args[0].(*ssa.Parameter); ok && argsOK {
+			argsOK = false
+			for i, q := range h.Params {
+				if q == p0 && i < len(hcall.Call.Args) && tempPath != nil && resolveCell(hcall.Call.Args[i]) == tempPath {
+					argsOK = true
+				}
+			}
+		} else {
+			argsOK = false
+		}
+		r.check(argsOK, key+"rename args", c.pos(helperRename.Pos()), "Rename(temp, path) (in "+h.Name()+")", "rename does not move the temp file onto path")
+		for _, chk := range errChecksOf(errorResult(helperRename)) {
+			if failEdgeReturnsError(chk) && (chk.OkSucc == opendir.Block() || chk.OkSucc.Dominates(opendir.Block())) {
+				dom = true
+			}
+		}
+	} else if rename != nil {
+		for _, chk := range errChecksOf(errorResult(rename)) {
+			if chk.OkSucc == hcall.Block() || chk.OkSucc.Dominates(hcall.Block()) {
+				dom = true
+			}
 		}
 	}
 	r.check(dom, key+"order rename < open dir", c.pos(hcall.Pos()), "runs only after 'rename' succeeded", "'open dir' can run although 'rename' has not (successfully) happened before it")
